@@ -1,4 +1,5 @@
 import BigDec.Model.Exp
+import BigDec.Proofs.EstCode
 import BigDec.Proofs.ExpPos
 /-! # C13 — exp(x) is positive and accurate to its last digit for every argument
 
@@ -8,8 +9,8 @@ enclosure of `e^x` computed with exact rational arithmetic (`Spec.expEnclosure`)
 for ALL arguments about the model of the repaired routine (series for `|x|`, `e^-x = 1/e^x`):
 the result is strictly positive - the clause the original code violated for large negative
 arguments (exp(-1000) was negative) - and `exp(0)` is exactly 1.  `est` is the f64 digit estimate;
-`EstOK est` (10^est(b) ≤ 2^b) is the scalar condition checked on the real code for every bit length
-by C18's `digitsbits` cases. -/
+`EstOK est` is the scalar condition proved for the code's own f64 quotient up to 2^40 bits
+(`C18_est_code`); `estGuard` is that quotient up to 2^40 bits and the exact floor above. -/
 namespace BigDec
 
 theorem C13_exp_zero (cfg : Config) (est : Nat → Nat) (s : Int) : (Dec.mk 0 s).exp cfg est = some ⟨1, 0⟩ := by
@@ -20,6 +21,12 @@ theorem C13_exp_zero (cfg : Config) (est : Nat → Nat) (s : Int) : (Dec.mk 0 s)
 theorem C13_positive (cfg : Config) {est : Nat → Nat} (hest : EstOK est) (hp : 1 ≤ cfg.precision)
     (x : Dec) (fuel : Nat) (r : Dec) (h : x.exp cfg est fuel = some r) : 0 < r.int ∧ 0 < r.value :=
   ⟨exp_pos cfg hest hp x fuel r h, (value_pos_iff r).mpr (exp_pos cfg hest hp x fuel r h)⟩
+
+/-- strict positivity with the code's own digit estimate (as long as no intermediate value exceeds
+    2^40 bits, where `estGuard` stops following the f64 computation) -/
+theorem C13_positive_code (cfg : Config) (hp : 1 ≤ cfg.precision)
+    (x : Dec) (fuel : Nat) (r : Dec) (h : x.exp cfg estGuard fuel = some r) : 0 < r.int ∧ 0 < r.value :=
+  C13_positive cfg estGuard_ok hp x fuel r h
 
 /-- the reciprocal path: a negative argument is computed as `1 / e^|x|` and trimmed -/
 theorem C13_negative_is_reciprocal (cfg : Config) (est : Nat → Nat) (x : Dec) (fuel : Nat) (hneg : x.int < 0) :
